@@ -80,7 +80,7 @@ def step (ws : List String) (impl : String) : Ans :=
           let back := License.parse noBody str
           { m := s!"{hexOfBytes str} {showLicense back}", s := s!"{hexOfBytes str} {showLicense (.ok (.v1 l))}" }
       | _, _, _ => bad
-  | ["licrt", _] => { m := "same" }
+  | ["licrt", _, _, _, _] => { m := "same" }
   | ["licmut", _] => { m := "nopanic" }
   | _ => bad
 
